@@ -725,6 +725,39 @@ def service_shape(texts):
         else: refuse(W, f"{k}: treatment of a reply that cannot be serialised not recognised")
     return {'buffers': sizes, 'build': build}
 
+# ------------------------------------------------------------------ character_string.rs: the codec of a character-string
+def charstr_codec(text):
+    W = 'character_string.rs: CharacterString::parse / write_to / len / internal_new'
+    E = r'\{return Err\((?:crate::)?SimpleDnsError::\w+\);\}'
+    b = block_after(text, r"\bfn parse\(data:&'a\[u8\],position:&mut usize\)->crate::Result<Self>where Self:Sized,?", W)
+    m = re.match(r'if\*position(>=|>)data\.len\(\)' + E + r'let length=data\[\*position\]as usize;'
+                 r'if length(>=|>)MAX_CHARACTER_STRING_LENGTH\|\|length\+\*position\+(\d+)(>=|>)data\.len\(\)' + E +
+                 r'let data=&data\[\*position\+(\d+)\.\.\*position\+(\d+)\+length\];\*position\+=length\+(\d+);Ok\(Self\{data:Cow::Borrowed\(data\),?\}\)$', b)
+    if not m: refuse(W, f"parse: {b[:300]}")
+    w = fn_body(text, 'write_to', W)
+    if not re.match(r'out\.write_all\(&\[self\.data\.len\(\)as u8\]\)\?;out\.write_all\(&self\.data\)(?:\.map_err\(crate::SimpleDnsError::from\)|\?;Ok\(\(\)\))$', w): refuse(W, f"write_to: {w[:200]}")
+    l = fn_body(text, 'len', W, r'&self\)')
+    ml = re.match(r'self\.data\.len\(\)\+(\d+)$', l)
+    if not ml: refuse(W, f"len: {l[:100]}")
+    n = fn_body(text, 'internal_new', W)
+    mn = re.match(r'if data\.len\(\)(>=|>)MAX_CHARACTER_STRING_LENGTH' + E + r'Ok\(Self\{data\}\)$', n)
+    if not mn: refuse(W, f"internal_new: {n[:200]}")
+    return {'ops': [m.group(1), m.group(2), m.group(4), mn.group(1)], 'nums': [int(m.group(3)), int(m.group(5)), int(m.group(6)), int(m.group(7)), int(ml.group(1))]}
+
+# ------------------------------------------------------------------ packet.rs: the buffer-returning entry points and parse_section
+def packet_entry_points(text):
+    W = 'packet.rs: build_bytes_vec / build_bytes_vec_compressed / parse_section'
+    out = []
+    for fn, writer in (('build_bytes_vec', 'write_to'), ('build_bytes_vec_compressed', 'write_compressed_to')):
+        b = fn_body(text, fn, W, r'&self\)')
+        if re.match(r'let mut out=Cursor::new\(Vec::(?:with_capacity\(\d+\)|new\(\))\);self\.' + writer + r'\(&mut out\)\?;Ok\(out\.into_inner\(\)\)$', b): out.append('fresh-cursor:' + writer)
+        elif re.match(r'let mut out=Vec::(?:with_capacity\(\d+\)|new\(\));self\.' + writer + r'\(&mut out\)\?;Ok\(out\)$', b): out.append('fresh-vec:' + writer)
+        else: refuse(W, f"{fn}: {b[:200]}")
+    b = fn_body(text, 'parse_section', W)
+    if not re.match(r'let mut (\w+)=Vec::new\(\);for _ in 0\.\.items_count\{\1\.push\(T::parse\(data,offset\)\?\);\}Ok\(\1\)$', b): refuse(W, f"parse_section: {b[:200]}")
+    out.append('count-times-in-order')
+    return out
+
 # ------------------------------------------------------------------ name.rs: the relations between names
 def name_relations(text):
     W = 'name.rs: is_link_local / is_subdomain_of / without'
@@ -878,6 +911,9 @@ def generate(repo):
         return into_records(files['inst'], files['conv'])
     ir = attempt('mdns.into_records', _ir)
     ssh = attempt('mdns.service_shape', lambda: service_shape({k: files[k] for k in ('rs', 'ra', 'ds', 'da')}))
+    pep = attempt('packet.entry_points', need('p', packet_entry_points))
+    files['cs'] = read_keep('simple-dns/src/dns/character_string.rs')
+    csc = attempt('charstr.codec', need('cs', charstr_codec))
     npz = attempt('name.parse', need('name', name_parse))
     files['txt'] = read_keep('simple-dns/src/dns/rdata/txt.rs')
     txa = attempt('txt.api', need('txt', txt_api))
@@ -1027,6 +1063,11 @@ def generate(repo):
           "/-- the receive buffers of the four service loops (sync responder, tokio responder, sync discovery, tokio discovery), and what the two responder loops do with a reply that cannot be serialised -/",
           "def serviceBuffers : Option (List Nat) := " + ('none' if ssh is None else 'some [' + ', '.join(str(x) for x in ssh['buffers']) + ']'),
           "def responderBuildPolicy : Option (List String) := " + ('none' if ssh is None else 'some ' + strs(ssh['build'])),
+          "/-- `CharacterString`: the comparisons of `parse` (position ? data.len(), length ? MAX, end ? data.len()) and of `internal_new` (len ? MAX); what `parse` adds to length + position for the end test, the two offsets of the slice it takes, its advance besides the length, and what `len()` adds to the data length -/",
+          "def charStrOps : Option (List String) := " + ('none' if csc is None else 'some ' + strs(csc['ops'])),
+          "def charStrNums : Option (List Nat) := " + ('none' if csc is None else 'some [' + ', '.join(str(x) for x in csc['nums']) + ']'),
+          "/-- `Packet::build_bytes_vec`, `build_bytes_vec_compressed` (a fresh, empty buffer handed to the writer and returned) and `parse_section` (the announced number of entries, each parsed where the last one ended, kept in order; an error ends the message) -/",
+          "def packetEntryPoints : Option (List String) := " + ('none' if pep is None else 'some ' + strs(pep)),
           "/-- `From<QTYPE> for u16` and `From<QCLASS> for u16` (the codes the writers emit): (variant, code; `none` for the arm that converts the wrapped TYPE / CLASS) -/",
           "def qtypeToCode : Option (List (String × Option Nat)) := " + ('none' if qo is None else 'some [' + ', '.join(f'({q(a)}, {"none" if b == "inner" else "some " + b})' for a, b in qo['QTYPE']) + ']'),
           "def qclassToCode : Option (List (String × Option Nat)) := " + ('none' if qo is None else 'some [' + ', '.join(f'({q(a)}, {"none" if b == "inner" else "some " + b})' for a, b in qo['QCLASS']) + ']'),
